@@ -107,3 +107,9 @@ Theorem C12_adaptive_entry_split : forall d bits l s, find_entry d (l_name l) "Q
     (L "QAdaptiveActivation" (l_name l) (l_use_bias l) (Some (strip_params s)) None None, Some (digits s)).
 Proof. exact adaptive_entry_split. Qed.
 Print Assumptions C12_adaptive_entry_split.
+(* configurations model_quantize rejects (assertion: an adaptive entry with parameters): never without an adaptive entry being found *)
+Theorem C12_no_adaptive_no_rejection : forall d m, assoc "QAdaptiveActivation" d = None ->
+  (forall l, In l m -> assoc (l_name l) d = None \/ find_entry d (l_name l) "QActivation" <> None) ->
+  model_rejected false d m = false.
+Proof. exact no_adaptive_no_rejection. Qed.
+Print Assumptions C12_no_adaptive_no_rejection.
